@@ -128,7 +128,8 @@ fn frl_queries(out: &mut Out, rng: &mut Rng, dom: bool, u: &Universe, base_max: 
     for (c, m) in &pairs {
         for &l in &lines {
             flip = !flip;
-            let file = if flip { Some("SF.java") } else { None };
+            // (the frame's own file may itself be the synthetic-class marker or a near miss of it)
+            let file = if rng.pct(6) { Some(rng.pick(&["R8$$SyntheticClass", "R8$$SyntheticClass", "D8$$SyntheticClass", "R8$$SyntheticClass.java", "", "SourceFile"])) } else if flip { Some("SF.java") } else { None };
             out.t(dom, format!("FRL {} {} {} {}", hxs(c), hxs(m), l, opt_hxs(file)));
             out.count("q_frame_line");
         }
@@ -1044,6 +1045,20 @@ pub fn gen_c05(rng: &mut Rng, tier: &str, out: &mut Out) {
             for m in malformed_variants(rng, &l) {
                 out.d(format!("TRY {}", hxs(&format!("{}{}", m, term))));
                 out.count("malformed_lines");
+            }
+        }
+        if rng.pct(6) {
+            // two physical lines in one buffer: an indented line that has no blank after its
+            // indentation, then this line with less indentation — a record never spans a terminator
+            let head = rng.pick(&["    int", "    f->c", "    1:2:run(int)", "    x", "    1:2:", "    "]);
+            let nl = rng.pick(&["\n", "\r\n", "\r", "\n\n"]);
+            let body = l.trim_start();
+            for ind in ["", " ", "  ", "   "] {
+                let t = format!("{}{}{}{}", head, nl, ind, body);
+                out.d(format!("TRY {}", hxs(&t)));
+                map_op(out, true, t.as_bytes());
+                out.d("REC".into());
+                out.count("two_line_buffers");
             }
         }
     }
